@@ -1,5 +1,6 @@
 import Irismod.Props.Tie_Genesis
 open Irismod.Props.Tie Irismod.Gen.PureGenesis
+#print axioms genesis_effects_pinned
 #print axioms genesis_guards_pinned
 #print axioms genesis_all_translated
 #print axioms genesis_translated_pinned
